@@ -1340,8 +1340,32 @@ func (s *c02Store) takeGate(kind int) *c02Gate {
 	return nil
 }
 
+// settle waits for quiescence only when a loop can have been woken: a loop
+// parked in a gate or on a timer is released by the scheduler alone, a loop
+// parked on a wake-up channel only when that channel became readable.
 func (s *c02Store) settle() bool {
-	if !s.sync {
+	var parked [2]bool
+	s.mu.Lock()
+	for _, g := range s.gates {
+		if g.who >= 0 && g.who < 2 {
+			parked[g.who] = true
+		}
+	}
+	for _, t := range s.timers {
+		if t.who >= 0 && t.who < 2 {
+			parked[t.who] = true
+		}
+	}
+	pm := s.panicd
+	s.mu.Unlock()
+	if pm {
+		return true
+	}
+	s.lock.RLock()
+	rr := c02Readable(s.bl.GetBlockReleaseWakeup())
+	pr := c02Readable(s.bl.GetBlockPutWakeup())
+	s.lock.RUnlock()
+	if (parked[0] || !rr) && (parked[1] || !pr) {
 		return true
 	}
 	return s.quiet()
@@ -1676,11 +1700,11 @@ func c02RunGen(cfg *c02Cfg, w *c02World, gen Sx, depth int) (obs Sx, ok bool, ab
 	if depth > 0 {
 		for k := range cfg.sizes {
 			fm := s.findMissing([]int{k})
-			if !s.quiet() {
+			if !s.settle() {
 				return L(A(-2)), true, -2
 			}
 			g := s.get(k)
-			if !s.quiet() {
+			if !s.settle() {
 				return L(A(-2)), true, -2
 			}
 			probe = append(probe, L(fm, g))
@@ -1697,7 +1721,11 @@ func c02RunGen(cfg *c02Cfg, w *c02World, gen Sx, depth int) (obs Sx, ok bool, ab
 		if !ok {
 			return Sx{}, false, 0
 		}
-		if !s.quiet() {
+		if k := op.Nth(0).Int(); k == 8 || k == 9 || k == 10 {
+			if !s.quiet() {
+				return L(A(-2)), true, -2
+			}
+		} else if !s.settle() {
 			return L(A(-2)), true, -2
 		}
 		if f := failed(); f != 0 {
@@ -1710,7 +1738,7 @@ func c02RunGen(cfg *c02Cfg, w *c02World, gen Sx, depth int) (obs Sx, ok bool, ab
 	final := []Sx{}
 	for k := range cfg.sizes {
 		final = append(final, s.get(k))
-		if !s.quiet() {
+		if !s.settle() {
 			return L(A(-2)), true, -2
 		}
 	}
@@ -1814,8 +1842,16 @@ func c02ParseCfg(c, keys Sx) (*c02Cfg, bool) {
 	return cfg, true
 }
 
+var c02Once sync.Once
+
 func (c02) Exec(in Sx) (Sx, bool) {
-	log.SetOutput(io.Discard)
+	c02Once.Do(func() {
+		log.SetOutput(io.Discard)
+		// every step ends with a scan of all goroutine states (runtime.Stack stops the
+		// world); with one P that costs microseconds instead of milliseconds, and the
+		// schedules are sequenced by the harness anyway
+		runtime.GOMAXPROCS(1)
+	})
 	if in.IsAtom || in.Len() < 1 || !in.Nth(0).IsAtom {
 		return Sx{}, false
 	}
